@@ -2,11 +2,11 @@
    Model/Topology.v computes components and counters from the reference semantics (Model/Graph.v), where adjacency is
    "a dovetail record mentions both segments" (collections chosen by the regenerated kernels); it is compared with
    connected_components(), segment_connected_component() and the n_* counters of the implementation after generated
-   histories.  PARTIAL: the counter identities (each dovetail is filed exactly twice, so the halved sum is the number
-   of dovetail records; likewise containments and internal alignments) are checked on every generated state by the
-   correspondence, not proved. *)
+   histories.  The counter identities are proved from the invariant of the graph (C02/C09): each dovetail, containment
+   and internal record is filed exactly twice among the collections of its class, so the halved sums are the numbers
+   of records.  n_dead_ends is compared, not characterised. *)
 From Coq Require Import List String Ascii ZArith Bool.
-From GfaV Require Import Base.Py Model.Codec Model.Graph Model.Topology Proofs.GraphP Proofs.TopologyP.
+From GfaV Require Import Base.Py Model.Codec Model.Graph Model.Topology Proofs.GraphP Proofs.TopologyP Proofs.CountersP.
 Import ListNotations.
 Open Scope string_scope.
 
@@ -38,6 +38,21 @@ Theorem C16_components_disjoint : forall s todo seen cs,
   forall c, In c cs -> forall x, In x c -> ~ In x seen.
 Proof. exact components_from_disjoint. Qed.
 Print Assumptions C16_components_disjoint.
+
+(* in every state with unique identifiers, resolved mentions and oriented links the counters count the records *)
+Theorem C16_counters_count_records : forall s, names_unique s -> closed s -> links_oriented s ->
+  n_dovetails s = count_class s "L" /\ n_containments s = count_class s "C" /\ n_internals s = count_class s "I".
+Proof. exact counters_count_records. Qed.
+Print Assumptions C16_counters_count_records.
+
+(* and such states are all the states reachable by additions and removals inside the guards of C02 *)
+Theorem C16_counters_in_reachable_states : forall O ops s, Inv s -> guards2_hold O s ops -> links_oriented (run_ops O s ops) ->
+  n_dovetails (run_ops O s ops) = count_class (run_ops O s ops) "L".
+Proof.
+  intros O ops s I G LO. destruct (inv_reachable O ops s I G) as [_ [NU CL]].
+  exact (proj1 (counters_count_records _ NU CL LO)).
+Qed.
+Print Assumptions C16_counters_in_reachable_states.
 
 (* containments and internal alignments do not connect *)
 Example C16_witness :
